@@ -1,5 +1,5 @@
 (** A concrete instance of [run_setup] and two reachable states of its run (non-vacuity of the whole-run theorems). *)
-From TB Require Import Base Decimal BencodeModel TorrentModel LayoutModel PathModel FsModel SolverModel FinderModel RunModel SolverProofs FsProofs SystemModel SystemProofs GlueProofs EstablishProofs CompleteProofs RerunProofs.
+From TB Require Import Base Decimal BencodeModel TorrentModel LayoutModel PathModel FsModel SolverModel FinderModel RunModel SolverProofs RunProofs FinderModel FsProofs SystemModel SystemProofs GlueProofs EstablishProofs CompleteProofs RerunProofs AvailProofs.
 Local Open Scope N_scope.
 Definition Hid (b : list N) : list N := b.
 Definition ex_t : torrent := {| t_name := [97]; t_length := Some 2; t_files := None; t_piece_length := 2; t_pieces := [[7;8]]; t_info_hash := [1] |}.
@@ -95,4 +95,32 @@ Proof.
   - intros _. cbn [ps_entry e_target ps_len ps_off]. split.
     + split; intros e [Hin _]; vm_compute in Hin; destruct Hin as [<-|[]]; vm_compute; intuition discriminate.
     + intros _. exists 5. split; [reflexivity|]. left. intros e [[Hin _] Hl]. vm_compute in Hin. destruct Hin as [<-|[]]. vm_compute in Hl. discriminate.
+Qed.
+
+(** ... because its data is PRESENT in the sense of C02's statement (AvailProofs): the index [ex_ix] is exactly what
+    gets registered in [ex_f0] when [s] is the scan directory, and [s/x] is a file of the declared length under it
+    that holds the piece's bytes. *)
+Definition ex_es0 := metadata_table ex_export [ex_t] 0.
+Definition ex_under (p : path) : bool := match p with c :: _ => beq c [115] | [] => false end.
+Example ex_ix_of_fs : ix_of_fs ex_f0 0 ex_under ex_es0 ex_ix.
+Proof.
+  intros n p id. split.
+  - intros (ns & Hn & Hin). unfold nodes_of, ex_ix in Hn. cbn [assoc_n] in Hn. destruct (N.eqb_spec n 2) as [->|]; [|discriminate].
+    inversion Hn; subst ns. destruct Hin as [Heq|[]]. inversion Heq; subst. left. eexists. split; [reflexivity|]. split; reflexivity.
+  - intros [(l & Hl & Hu & Hr)|(e & He & Hr)].
+    + unfold listed_of in Hl. destruct (fs_lookup ex_f0 p) as [[|i]|] eqn:El; try discriminate. inversion Hl; subst l. clear Hl.
+      unfold fs_lookup in El. destruct p as [|c p]; [discriminate|]. cbn [ex_f0 fs_nodes assoc_path] in El.
+      destruct (path_eqb (c :: p) [[101]]); [discriminate|]. destruct (path_eqb (c :: p) [[115]]); [discriminate|].
+      destruct (path_eqb (c :: p) [[115]; [120]]) eqn:Ep; [|discriminate]. apply path_eqb_eq in Ep. rewrite Ep in *. inversion El; subst i.
+      vm_compute in Hr. inversion Hr; subst. exists [([[115]; [120]], (0, 5))]. split; [reflexivity|now left].
+    + vm_compute in He. destruct He as [<-|[]]. vm_compute in Hr. discriminate.
+Qed.
+Example ex_present : Forall (seg_present_stable ex_content ex_f0 ex_under ex_es0 ex_es) (w_segs ex_pc).
+Proof.
+  vm_compute w_segs. constructor; [|constructor]. intros _. cbn [ps_entry e_target ps_len ps_off].
+  split; [intros q [<-|[<-|[<-|[]]]]; reflexivity|]. split; [reflexivity|]. split; [discriminate|]. split.
+  - split; intros e [Hin _]; vm_compute in Hin; destruct Hin as [<-|[]]; vm_compute; intuition discriminate.
+  - intros _. exists [[115]; [120]], 5. split.
+    + split; [reflexivity|]. split; [reflexivity|]. split; [now left|reflexivity].
+    + left. intros e [[Hin _] Hl]. vm_compute in Hin. destruct Hin as [<-|[]]. vm_compute in Hl. discriminate.
 Qed.
